@@ -250,6 +250,14 @@ def _rest(rep, M, CM, file):
             elif e[0] == "try":
                 evs.append("try")
         exc = [g[1] for g, pol, _ in p.guards if g[0] == "exc"]
+        # a handler that narrows the caught exception itself (isinstance / match on the exception variable): the narrowed class counts
+        for g, pol, _ in p.guards:
+            if g[0] == "call" and g[1] == "isinstance" and len(g[2]) == 2 and g[2][0][0] == "excval":
+                cname = (g[2][1][1] if g[2][1][0] in ("g", "class") and isinstance(g[2][1][1], str) else show_sv(g[2][1])).split(".")[-1].strip("()'")
+                if pol:
+                    exc = [cname]
+                elif cname in ("Exception",) and exc and not any("Cancelled" in x for x in exc):
+                    exc = ["<non-Exception BaseException>"]
         in_try = "try" in evs
         if not in_try:
             if "failure" in evs or "reset" in evs:
@@ -263,7 +271,7 @@ def _rest(rep, M, CM, file):
                 conds = "; ".join(("" if pol else "not ") + show_sv(g)[:70] for g, pol, _ in p.guards if g[0] != "exc")
                 rep.violation("R2", f"{MOD}.ConnectionManager.{tc.name}", "reset-on-success", "a successful connection does not reset the back-off sequence exactly once (after the factory returned)",
                               file, tc.node.lineno, witness=f"events {[x if isinstance(x, str) else 'sleep' for x in evs]} under [{conds}]")
-        elif any("Cancelled" in x for x in exc):
+        elif any("Cancelled" in x or x == "<non-Exception BaseException>" for x in exc):
             if "failure" in evs or "reset" in evs:
                 bad2 += 1
                 rep.violation("R2", f"{MOD}.ConnectionManager.{tc.name}", "cancel-path", "cancellation is counted as a failure/success", file, tc.node.lineno)
